@@ -66,17 +66,29 @@ class Oracle:
                     if site not in sites: nsrc += 1; sites[site] = nsrc
                     p = u(8, sites[site]) + u(8, clock) + args[:4]
                     accepted[w].append(p); owner[p] = w
-            elif f[0] in ('co', 'rc'):
+            elif f[0] in ('co', 'rc', 'cf', 'rs'):
                 writes, cnt = parse_out(tok)
+                def act(a):
+                    nonlocal nsrc
+                    if a[0] == 'a':
+                        w, k, h = a[1:].split('.'); w = int(w); p = bytes.fromhex(h)
+                        if w in live: accepted[w].append(p); owner[p] = w
+                    elif a[0] == 'c': live.discard(int(a[1:]))
+                    elif a[0] == 'r': nsrc += 1
+                    elif a[0] == 's':         # a log statement attempted while the consumer holds the mutex (search stage only)
+                        w, site, clock, arg = [int(x) for x in a[1:].split('.')]
+                        if w in live:
+                            if site not in sites: nsrc += 1; sites[site] = nsrc
+                            p = u(8, sites[site]) + u(8, clock) + u(4, arg)
+                            accepted[w].append(p); owner[p] = w
                 if f[0] == 'co' and len(f) > 1 and f[1]:
                     for plan in f[1].split(';')[:cnt[2]]:      # only the plans of channels that exist are executed
                         for part in plan.split('|')[1:]:
-                            for a in [x for x in part.split(',') if x]:
-                                if a[0] == 'a':
-                                    w, k, h = a[1:].split('.'); w = int(w); p = bytes.fromhex(h)
-                                    if w in live: accepted[w].append(p); owner[p] = w
-                                elif a[0] == 'c': live.discard(int(a[1:]))
-                if f[0] == 'rc': outputs.append([])
+                            for a in [x for x in part.split(',') if x]: act(a)
+                if f[0] == 'rs':
+                    for a in [x for x in f[2].split(',') if x]: act(a)
+                if f[0] in ('rc', 'rs'): outputs.append([])
+                if tok[0] == 'X': cnt = (sum(len(w) for w in writes),) + cnt[1:]      # the sink failed: counters were not returned
                 if 'framing' in ck:
                     if cnt[0] != sum(len(w) for w in writes): return 'bytesConsumed %d but %d bytes written' % (cnt[0], sum(len(w) for w in writes))
                     for w in writes:
@@ -86,7 +98,7 @@ class Oracle:
                 while i < len(writes):
                     ents = split_entries(writes[i]) or []
                     is_wp = len(ents) == 1 and int.from_bytes(ents[0][:8], 'little') == TAG_WP
-                    if is_wp and f[0] == 'co':
+                    if is_wp and f[0] in ('co', 'cf'):
                         p = ents[0]; wid = int.from_bytes(p[8:16], 'little'); nl = int.from_bytes(p[16:20], 'little'); name = p[20:20 + nl]
                         batch = int.from_bytes(p[20 + nl:28 + nl], 'little')
                         j, got, evs = i + 1, 0, []
@@ -162,3 +174,32 @@ def session_replay(ctx, rp, checks):
         ops = lines[0].split(' ')[1:]; o = Oracle(ops, checks); o.quiescent_end = len(ops) >= 2 and ops[-1] == 'co:' and ops[-2] == 'co:'
         return o
     return generic_replay(ctx, rp, orc, drv='drv_session')
+
+
+def inside_search(ctx, checks, what, n=400):
+    """Search stage on the implementation alone (the model has no such operations): histories in which (a) a log statement is executed for the
+    first time by another thread while consume holds the mutex (the real code must block it: the driver unwinds the attempt and runs it after consume),
+    (b) the sink fails at the k-th write of a consume and the application consumes again, (c) sources are registered while a write of reconsumeMetadata is in progress."""
+    rng = random.Random(ctx.seed * 977 + 3); R = Run(ctx, 'drv_session')
+    for i in range(n):
+        ops = ['nw:1:4096:1:77']; clock = 10; used = set()
+        if rng.random() < 0.5: ops.append('nw:2:4096:2:78')
+        nwr = 2 if len(ops) == 2 else 1
+        for _ in range(rng.randrange(2, 9)):
+            k = rng.random(); clock += 1
+            w = rng.randrange(1, nwr + 1)
+            if k < 0.3:
+                site = rng.randrange(8); sev = [32, 64, 128, 256, 512, 1024, 128, 32][site]; used.add(site)
+                ops.append('lg:%d:0:%d:%d:%d:%s' % (w, site, sev, clock, u(4, clock).hex()))
+            elif k < 0.55:
+                site = rng.randrange(8)
+                ops.append('co:1000|s%d.%d.%d.%d|%s' % (w, site, clock, clock, ';1000|s%d.%d.%d.%d|' % (nwr, (site + 1) % 8, clock + 100, clock + 100) if rng.random() < 0.4 else ''))
+            elif k < 0.7: ops.append('cf:%d' % rng.randrange(1, 4)); ops.append('co:')
+            elif k < 0.8: ops.append('cs:%d:1000000000:%d:0:5554' % (clock, clock))
+            elif k < 0.95: ops.append('rs:%d:%s' % (rng.randrange(1, 3), ','.join('r%d' % rng.randrange(100) for _ in range(rng.randrange(1, 8)))))
+            else: ops.append('co:')
+        ops += ['co:', 'co:']
+        line = 'session ' + ' '.join(ops)
+        o = Oracle(ops, checks); o.quiescent_end = False
+        R.add_prop([line], o, what, ('inside',), True)
+    return [v for v in R.execute()['violations'] if v[1]]
